@@ -34,7 +34,7 @@ MARKERS = ['OPTIONAL', 'DEBUG', 'TMP', 'ΩPT']
 # is a question about the line as given, not about the stripped line
 EDGE_MARKERS = ['# ', ' #', '--\t']
 SUBSTRINGS = ['USER', 'HOST', 'AT', 'KEY=', 'ÉTÉ']
-PREPROCESSORS = ['drop_rem', 'cut20']
+PREPROCESSORS = ['drop_rem', 'cut20', 'drop_first', 'cut_left2']
 
 
 def fill(shape):
@@ -98,6 +98,11 @@ def preprocess_fn(name):
         return lambda lines: [ln for ln in lines if not ln.startswith('REM')]
     if name == 'cut20':
         return lambda lines: [ln[:20] for ln in lines]
+    # two that are not idempotent: applying them twice is not applying them
+    if name == 'drop_first':
+        return lambda lines: list(lines[1:])
+    if name == 'cut_left2':
+        return lambda lines: [ln[2:] for ln in lines]
     raise ValueError(name)
 
 
@@ -155,7 +160,8 @@ def line_case(draw, tier='quick', max_lines=8):
         'delete_plain', 'insert_plain', 'mark_both', 'substring_line',
         'substring_line', 'substring_actual_only', 'dup_line', 'rem_line',
         'long_line', 'blank_tail', 'insert_edge_marked',
-        'edge_marked_pair', 'only_rem', 'bom', 'dup_excused']), min_size=0,
+        'edge_marked_pair', 'only_rem', 'bom', 'dup_excused',
+        'blank_before_marked_tail', 'header_line']), min_size=0,
         max_size=3))
     if not edits and draw(st.integers(0, 2)) != 0:
         edits = [draw(st.sampled_from(['refill', 'pad', 'swap', 'fchar',
@@ -294,6 +300,27 @@ def line_case(draw, tier='quick', max_lines=8):
                 ref.insert(draw(st.integers(0, len(ref))), line + ' 2')
             if enable():
                 opts['preprocess'] = 'drop_rem'
+        elif e == 'blank_before_marked_tail':
+            # one side ends "..., <blank>, <removable line>": the blank line
+            # is not the text's last line, so it counts
+            mk = draw(st.sampled_from(MARKERS))
+            tgt = act if draw(st.booleans()) else ref
+            tgt.extend(['', 'generated ' + mk])
+            if enable():
+                marks.append(mk)
+        elif e == 'header_line':
+            # a first line (or a two-character prefix) that only a
+            # preprocessor makes go away
+            if draw(st.booleans()):
+                act.insert(0, 'HEADER run 1')
+                ref.insert(0, 'HEADER run 2')
+                if enable():
+                    opts['preprocess'] = 'drop_first'
+            else:
+                act[:] = ['A ' + ln for ln in act]
+                ref[:] = ['R ' + ln for ln in ref]
+                if enable():
+                    opts['preprocess'] = 'cut_left2'
         elif e == 'dup_excused':
             # one text twice on the actual side: the first time against a
             # plain, different reference line (an unexcused difference), the
